@@ -192,7 +192,12 @@ pub fn plan_reward_auth(w: &World, k: &Knobs, actor: &mut Actor, l: &Ledger) -> 
             // initialize the next reward (or a wrong index)
             let idx = if rng.chance(1, 8) { rng.below(4) as u8 } else { n_init as u8 };
             let used: Vec<_> = pool.rewards.iter().map(|r| r.mint).collect();
-            let m = w.reward_mints.iter().find(|m| !used.contains(&m.key)).unwrap_or(&w.reward_mints[0]);
+            // usually a fresh mint; sometimes the mint another reward index of this pool already uses
+            let shared = w.reward_mints.iter().find(|m| used.contains(&m.key));
+            let m = match shared {
+                Some(m) if rng.chance(1, 4) => m,
+                _ => w.reward_mints.iter().find(|m| !used.contains(&m.key)).unwrap_or(&w.reward_mints[0]),
+            };
             let vault = crate::world::new_key(rng);
             let ixn = if rng.chance(1, 2) {
                 let mut i = ix::mk(
